@@ -175,6 +175,23 @@ let () = register "c16.fragment" (fun line ->
     ^ classes [("cont_after_bad", frag_cont_after_bad ls); ("alias_lines", frag_lines_desync ls)]
   | _ -> "BAD-CASE")
 
+(* the same lines embedded in a Lua file: one comment block, same result as ParseCommentFragment on the lines *)
+let () = register "c16.file" (fun line ->
+  match split_ws line with
+  | h :: _ -> ser_res (parse_fragment (lines_of h)) ^ "\t-\t-"
+  | _ -> "BAD-CASE")
+
+(* an example line of the manual must be accepted: exactly one statement, no error *)
+let () = register "c16.doc" (fun line ->
+  match split_ws line with
+  | h :: _ ->
+    (match parse_fragment (lines_of h) with
+     | Ok { f_stats = [_]; f_lines = [_]; f_errs = [] } -> "accepted"
+     | Ok fr -> Printf.sprintf "rejected stats=%d errs=%d" (List.length fr.f_stats) (List.length fr.f_errs)
+     | Fault _ -> "PANIC"
+     | OutOfFuel -> "TIMEOUT") ^ "\taccepted\t-"
+  | _ -> "BAD-CASE")
+
 let () = register "c16.total" (fun line ->
   match split_ws line with
   | h :: _ ->
@@ -199,8 +216,7 @@ let () = register "c16.print" (fun line ->
      | Some (a, _, _) ->
        let printed = type_convert_str a in
        let d = abs a in
-       let cls = classes [("printer_fun", has_fun d); ("printer_const", has_const d);
-                          ("printer_union", has_union_under_array d); ("printer_nested_array", has_nested_array d)] in
+       let cls = classes [("printer_fun", has_fun d); ("printer_const", has_const d); ("printer_union", has_paren_item d)] in
        let spec = hx printed ^ " " ^ ser_dtype (flat d) ^ " -" in
        let model =
          (match parse_fragment [(n_of_int 1, type_line @ printed)] with
